@@ -8,10 +8,11 @@ from vlib.model import Base
 from vlib.monitors import contracts, py_trace
 from props import ccommon, pycommon, probes
 
-STD_Q = ["gcc-O0-sep", "gcc-O2-single", "gcc-asan-ubsan", "gcc-O0-BE"]
-STD_T = STD_Q + ["clang-O2-sep", "gcc-O3-single", "gcc-O2-BE", "clang-O2-BE", "gcc-asan-BE"]
+# emu-BE-*: emulated big-endian host (vlib/be_emu.py) - the only big-endian configuration in which the sign step and every decode are judged
+STD_Q = ["gcc-O0-sep", "gcc-O2-single", "gcc-asan-ubsan", "gcc-O0-BE", "emu-BE-O1"]
+STD_T = STD_Q + ["clang-O2-sep", "gcc-O3-single", "gcc-O2-BE", "clang-O2-BE", "gcc-asan-BE", "emu-BE-O0", "emu-BE-O2"]
 OPT_Q = [("little", [], "gcc-O0-sep"), ("big", [], "gcc-O0-sep")]
-OPT_T = OPT_Q + [("both", [], "gcc-O2-single"), ("both", ["-DBP_BIG_ENDIAN"], "gcc-O2-single"), ("little", [], "gcc-asan-ubsan"),
+OPT_T = OPT_Q + [("both", [], "emu-BE-O1"), ("big", [], "emu-BE-O2"), ("both", [], "gcc-O2-single"), ("both", ["-DBP_BIG_ENDIAN"], "gcc-O2-single"), ("little", [], "gcc-asan-ubsan"),
                  ("big", [], "gcc-asan-ubsan"), ("little", [], "clang-O2-sep"), ("big", [], "clang-O3-single")]
 
 
@@ -224,7 +225,7 @@ if __name__ == "__main__":
               "basis (bits 0, 7, 8, w/2, w-1) and a sample of positions per type, thorough enumerates the space completely"),
         assumptions=["vlib/ref.py is the specification", "big-endian emulation does not judge decodes of signed non-8/16/32/64 widths (sign step reads storage natively)",
                      "Go -O statements evaluated by vlib/sut_gotext.py when enabled"],
-        required_counters=["py_probes", "copybits_calls", "c_probes:std:gcc-O0-sep", "c_probes:std:gcc-O0-BE", "c_probes:opt-little:gcc-O0-sep",
+        required_counters=["py_probes", "copybits_calls", "c_probes:std:gcc-O0-sep", "c_probes:std:gcc-O0-BE", "c_probes:std:emu-BE-O1", "c_probes:opt-little:gcc-O0-sep",
                            "c_probes:opt-big:gcc-O0-sep", "be_monitor_positive_control_failures_seen", "go_probes"],
         extra_coverage=extra,
     )
